@@ -178,7 +178,11 @@ func (g *engine) attribute(h History, o *Outcome, draws int) {
 // descriptors) are still two registrations.
 var sameTargetOps = []Op{{"RegConn", "b3"}, {"RegConn", "b3x"}, {"DropConn", "b3"}, {"DropConn", "b3x"}, {"DropConn", "unknown"}}
 
-var extOps = append(append([]Op{}, allOps...), Op{"RegConn", "b3x"}, Op{"DropConn", "b3x"})
+// skewOps: b4 serves a newer revision of service A than b1 and the local
+// service (one more binding).
+var skewOps = []Op{{"RegConn", "b1"}, {"RegConn", "b4"}, {"DropConn", "b1"}, {"DropConn", "b4"}, {"RegLocal", ""}}
+
+var extOps = append(append([]Op{}, allOps...), Op{"RegConn", "b3x"}, Op{"DropConn", "b3x"}, Op{"RegConn", "b4"}, Op{"DropConn", "b4"})
 
 func randomHistory(rng *rand.Rand, minLen, maxLen int) History {
 	n := minLen + rng.Intn(maxLen-minLen+1)
@@ -258,7 +262,20 @@ func RunC11(r *mon.Run) {
 			g.attribute(h, outs[i], Draws)
 		}
 	}
-	for L := 2; L <= 4; L++ {
+	extLen := 3
+	if r.Thorough() {
+		extLen = 5
+	}
+	for L := 1; L <= extLen; L++ {
+		hs := enumerate(skewOps, L)
+		total += len(hs)
+		outs := g.runAll(hs, Draws)
+		for i, h := range hs {
+			g.account(h, outs[i])
+			g.attribute(h, outs[i], Draws)
+		}
+	}
+	for L := 2; L <= extLen; L++ {
 		hs := enumerate(sameTargetOps, L)
 		total += len(hs)
 		outs := g.runAll(hs, Draws)
